@@ -13,7 +13,7 @@ HARNESS_INFO = {}
 RECL = ["recl_a", "recl_b", "recl_c"]
 QUEUES = ["queues_ms", "queues_ram", "queues_nik"]
 HM = ["hmlist", "hmmap"]
-ALL = RECL + QUEUES + ["bqueues", "kfifo", "own"] + HM
+ALL = RECL + QUEUES + ["bqueues", "kfifo", "own"] + HM + ["vmap", "deque", "lr", "seqlock"]
 
 PROPS = {
     "C01": {"mode": "C01", "harnesses": RECL, "quick_s": 25, "thorough_s": 900,
@@ -34,6 +34,16 @@ PROPS = {
             "title": "Harris-Michael list set and hash map are linearizable sets/maps"},
     "C09": {"mode": "C09", "harnesses": HM, "quick_s": 25, "thorough_s": 900,
             "title": "Harris-Michael iterators stay valid and weakly consistent under updates"},
+    "C10": {"mode": "C10", "harnesses": ["vmap"], "quick_s": 25, "thorough_s": 900,
+            "title": "vyukov_hash_map is a linearizable map incl. lock-free reads and resizing"},
+    "C11": {"mode": "C11", "harnesses": ["vmap"], "quick_s": 25, "thorough_s": 900,
+            "title": "vyukov_hash_map iterators: exclusive traversal, erase(iterator), no lost locks"},
+    "C12": {"mode": "C12", "harnesses": ["deque"], "quick_s": 20, "thorough_s": 600,
+            "title": "chase_work_stealing_deque hands out every pushed item exactly once"},
+    "C13": {"mode": "C13", "harnesses": ["lr"], "quick_s": 15, "thorough_s": 600,
+            "title": "left_right: readers always see one consistent, fully updated instance"},
+    "C14": {"mode": "C14", "harnesses": ["seqlock"], "quick_s": 15, "thorough_s": 600,
+            "title": "seqlock::load returns exactly some stored value, never torn or truncated"},
     "C15": {"mode": "C15", "harnesses": RECL, "quick_s": 25, "thorough_s": 600,
             "title": "marked_ptr / concurrent_ptr / guard_ptr smart pointer algebra"},
     "C16": {"mode": "C16", "harnesses": ALL, "quick_s": 30, "thorough_s": 900,
